@@ -187,28 +187,49 @@ Fixpoint tick_all (sh : shape) (t : Z) (ps : list (option (list Z))) (ts : list 
       end
   end.
 
-(* which branch the selector value designates: if_then_else (op 0) / if_cmp (op 1) *)
+(* The operator code [op] carries two things: the selection shape [bop op] (0 if_then_else,
+   1 if_cmp, 3/5 nested consumers, 6/7 chained, 8 list[key], 4 oracle-only) and, from 10 upwards, the
+   flag "the selectable targets are SUB-OUTPUTS OF ONE PRODUCER NODE" (the three fields of
+   one bundle output, reached through getattr_) instead of outputs of separate nodes. *)
+Definition bop (op : Z) : Z := op mod 10.
+Definition same_producer (op : Z) : bool := 10 <=? op.
+
+(* IDENTITY of a target: the owning node and the position (path) inside its output.  A
+   reference value designates such an identity; time_series_reference.cpp compares
+   references, and alternative.cpp bind_target_link_at compares bound outputs
+   (TSOutputHandle::same_as), on BOTH components. *)
+Record tid := mkTid { t_node : nat; t_path : nat }.
+Definition tid_of (op : Z) (i : nat) : tid :=
+  if same_producer op then mkTid 0 i      (* field i of the one producer node *)
+  else mkTid (S i) 0.                     (* the root output of source node i *)
+Definition tid_eqb (a b : tid) : bool := Nat.eqb (t_node a) (t_node b) && Nat.eqb (t_path a) (t_path b).
+Definition same_target (op : Z) (i j : nat) : bool := tid_eqb (tid_of op i) (tid_of op j).
+
+(* which branch the selector value designates: if_then_else / if_cmp (bop 1) / list[key] (bop 8:
+   container_impl.h getitem_tsl_by_index::eval — evaluated on a key tick or any tick of the list,
+   publishes the reference of element [key] with the same same-reference de-duplication; the
+   driver's key source maps <=0 -> 0, 1 -> 1, >=2 -> 2) *)
 Definition sel_target (op v : Z) : nat :=
-  if op =? 1 then (if v <=? 0 then 0%nat else if v =? 1 then 1%nat else 2%nat)
+  if (bop op =? 1) || (bop op =? 8) then (if v <=? 0 then 0%nat else if v =? 1 then 1%nat else 2%nat)
   else (if v =? 0 then 1%nat else 0%nat).
 
 (* control_impl.h if_then_else_impl::eval / if_cmp_impl::eval, evaluated because the
    selector input ticked (so condition.modified holds); a REF input bound to an
    ordinary output is valid from the start, so selected.valid holds.
    Result: Some s = publish reference s;  None = return without publishing. *)
-Definition publish (s : nat) (out : option nat) : option nat :=
+Definition publish (op : Z) (s : nat) (out : option nat) : option nat :=
   match out with
-  | Some cur => if Nat.eqb cur s then None   (* same-reference de-duplication *)
+  | Some cur => if same_target op cur s then None   (* same-reference de-duplication: same node AND same path *)
                 else Some s
   | None => Some s
   end.
-Definition selector (op v : Z) (out : option nat) : option nat := publish (sel_target op v) out.
+Definition selector (op v : Z) (out : option nat) : option nat := publish op (sel_target op v) out.
 
 Definition is_some {A} (o : option A) : bool := match o with Some _ => true | None => false end.
-Definition chained (op : Z) : bool := (op =? 6) || (op =? 7).
+Definition chained (op : Z) : bool := (bop op =? 6) || (bop op =? 7).
 (* does the outer selector value pick the branch fed by the inner selection?
    op 6: if_then_else(c2, inner, C);  op 7: if_cmp(cmp2, inner, C, C) *)
-Definition picks_inner (op v2 : Z) : bool := if op =? 7 then v2 <=? 0 else negb (v2 =? 0).
+Definition picks_inner (op v2 : Z) : bool := if bop op =? 7 then v2 <=? 0 else negb (v2 =? 0).
 
 (* One cycle of the selection operators: new selection state and what the consumer-side
    reference output publishes (None = no tick).
@@ -223,7 +244,7 @@ Definition picks_inner (op v2 : Z) : bool := if op =? 7 then v2 <=? 0 else negb 
      publish. *)
 Definition sel_eval (op : Z) (ss : selst) (c_sel c_sel2 : option Z) : selst * option nat :=
   if chained op then
-    let pin := match c_sel with Some v => selector 0 v (s_in ss) | None => None end in
+    let pin := match c_sel with Some v => publish op (sel_target 0 v) (s_in ss) | None => None end in
     let rin := match pin with Some s => Some s | None => s_in ss end in
     let c2 := match c_sel2 with Some v => Some v | None => s_c2 ss end in
     let pout :=
@@ -234,7 +255,7 @@ Definition sel_eval (op : Z) (ss : selst) (c_sel c_sel2 : option Z) : selst * op
           if is_some c_sel2 || (inner && is_some pin) then
             match (if inner then rin else Some 2%nat) with
             | None => None
-            | Some s => publish s (s_out ss)
+            | Some s => publish op s (s_out ss)
             end
           else None
       end in
@@ -249,8 +270,8 @@ Definition contents_before (t : Z) (g : target) : kv := if tlmt g =? t then tpre
 (* alternative.cpp bind_target_link_at + target_link.cpp bind_current_value / bind_sampled.
    Returns the new link and whether the link recorded itself modified (and so
    notified its consumers). *)
-Definition rebind (sh : shape) (t : Z) (ts : list target) (s : nat) (l : link) : link * bool :=
-  let same := match lk_tgt l with Some cur => Nat.eqb cur s | None => false end in
+Definition rebind (sh : shape) (op : Z) (t : Z) (ts : list target) (s : nat) (l : link) : link * bool :=
+  let same := match lk_tgt l with Some cur => same_target op cur s | None => false end in
   if same then (l, false)                                  (* same-target de-duplication *)
   else
     let newv := tvalid (get_t ts s) in
@@ -314,7 +335,7 @@ Definition step (sh : shape) (op : Z) (st : state) (c : cyc) : state * cout :=
   (* phase 2: the selector is evaluated iff its selector input ticked *)
   let '(ss', pub) := sel_eval op (sel st) (c_sel c) (c_sel2 c) in
   (* phase 3: a tick of the reference output refreshes the dereferencing link *)
-  let '(l2, renot) := match pub with Some s => rebind sh t ts s l1 | None => (l1, false) end in
+  let '(l2, renot) := match pub with Some s => rebind sh op t ts s l1 | None => (l1, false) end in
   let st' := mkS ts ss' l2 in
   (* phase 4: the consumers that were notified (or poked) are evaluated *)
   let r := read sh t ts l2 in
@@ -346,7 +367,7 @@ Definition script_line (l : line) : option (Z * Z * list Z) :=
   end.
 
 Definition wired (op k : Z) : bool :=
-  (k =? 0) || (k =? 1) || (k =? 2) || ((k =? 3) && ((op =? 1) || chained op)) || ((k =? 4) && chained op) || (k =? 7).
+  (k =? 0) || (k =? 1) || (k =? 2) || ((k =? 3) && ((bop op =? 1) || (bop op =? 8) || chained op)) || ((k =? 4) && chained op) || (k =? 7).
 
 Fixpoint insert_uniq (t : Z) (l : list Z) : list Z :=
   match l with
@@ -356,7 +377,7 @@ Fixpoint insert_uniq (t : Z) (l : list Z) : list Z :=
 
 (* op 3: the consumers live in a nested graph, whose first cycle (the start time: the
    scripted sources are scheduled on start, so that root cycle always exists) evaluates them all *)
-Definition nested_consumers (op : Z) : bool := (op =? 3) || (op =? 5).
+Definition nested_consumers (op : Z) : bool := (bop op =? 3) || (bop op =? 5).
 
 Definition times (op s e : Z) (w : wire) : list Z :=
   fold_left (fun acc l => match script_line l with
@@ -374,9 +395,9 @@ Definition payload_at (k t : Z) (w : wire) : option (list Z) :=
 Definition cyc_at (op s : Z) (w : wire) (t : Z) : cyc :=
   mkC t (match payload_at 0 t w with Some p => Some (hdz p) | None => None end)
       (if chained op then match payload_at 4 t w with Some p => Some (hdz p) | None => None end else None)
-      [payload_at 1 t w; payload_at 2 t w; if (op =? 1) || chained op then payload_at 3 t w else None]
+      [payload_at 1 t w; payload_at 2 t w; if (bop op =? 1) || (bop op =? 8) || chained op then payload_at 3 t w else None]
       (match payload_at 7 t w with Some _ => true | None => false end)
-      (nested_consumers op && (t =? s)) (op =? 5).
+      (nested_consumers op && (t =? s)) (bop op =? 5).
 
 Definition enc_kv (m : kv) : list Z := Z.of_nat (length m) :: flat_map (fun e => [fst e; snd e]) m.
 Definition enc_keys (l : list Z) : list Z := Z.of_nat (length l) :: l.
@@ -389,8 +410,18 @@ Definition enc_cout (o : cout) : wire :=
   map (fun d => enc_reading 20 (Z.of_nat (fst d)) (o_t o) (snd d)) (o_cons o) ++
   (if o_ref o then [[22; o_t o]] else []).
 
+(* sixth header field: 1 = the targets are fields of one producer node's bundle output *)
+Definition header_prod (w : wire) : Z :=
+  fold_left (fun acc l => match l with 1 :: s :: e :: r => nthz 2 r | _ => acc end) w 0.
+(* the driver treats every op it does not know as if_then_else *)
+Definition norm_op (op : Z) : Z := if (0 <=? op) && (op <? 9) then op else 0.
+(* op 8 (elements of one list output) always has sibling targets *)
+Definition eff_op (w : wire) (op : Z) : Z :=
+  norm_op op + (if (header_prod w =? 1) || (norm_op op =? 8) then 10 else 0).
+
 Definition decode (w : wire) : shape * Z * list cyc :=
-  let '(s, e, shz, op) := header w in
+  let '(s, e, shz, op0) := header w in
+  let op := eff_op w op0 in
   (shape_of shz, op, map (cyc_at op s w) (times op s e w)).
 
 Definition run_ref (w : wire) : wire :=
